@@ -774,6 +774,79 @@ def expected_terms():
     return out
 
 
+# ----------------------------------------------------------------------------------------- is the translator blind?
+
+SELFTEST_EDITS = [
+    # (file, old text, new text): each edit changes what the code does; the translator must either refuse the file
+    # or derive a different script
+    ("statemachine/engines/sync.py", "        result += self.sm._callbacks.call(transition.on.key, *args, **kwargs)\n\n        self.sm.current_state = target\n",
+     "        self.sm.current_state = target\n        result += self.sm._callbacks.call(transition.on.key, *args, **kwargs)\n\n"),
+    ("statemachine/engines/sync.py", "        kwargs[\"state\"] = target\n", ""),
+    ("statemachine/engines/sync.py", "        if source is not None and not transition.internal:\n", "        if source is not None:\n"),
+    ("statemachine/engines/sync.py", "        result = self.sm._callbacks.call(transition.before.key, *args, **kwargs)", "        result = self.sm._callbacks.call(transition.after.key, *args, **kwargs)"),
+    ("statemachine/engines/sync.py", "            if not executed:\n                continue\n\n            break", "            if not executed:\n                continue\n"),
+    ("statemachine/engines/sync.py", "            if not transition.match(trigger_data.event):\n                continue\n", ""),
+    ("statemachine/engines/sync.py", "                except BaseException:", "                except Exception:"),
+    ("statemachine/engines/sync.py", "                    self._external_queue.clear()\n", ""),
+    ("statemachine/engines/sync.py", "trigger_data = self._external_queue.popleft()\n                try:", "trigger_data = self._external_queue.pop()\n                try:"),
+    ("statemachine/engines/sync.py", "        if self._external_queue:\n            # Another thread", "        if False:\n            # Another thread"),
+    ("statemachine/engines/sync.py", "                    if first_result is self._sentinel:\n                        first_result = result", "                    first_result = result"),
+    ("statemachine/engines/async_.py", "        result += await self.sm._callbacks.async_call(transition.on.key, *args, **kwargs)", "        result += self.sm._callbacks.async_call(transition.on.key, *args, **kwargs)"),
+    ("statemachine/engines/async_.py", "        if not await self.sm._callbacks.async_all(transition.cond.key, *args, **kwargs):", "        if not self.sm._callbacks.async_all(transition.cond.key, *args, **kwargs):"),
+    ("statemachine/engines/async_.py", "            executed, result = await self._activate(trigger_data, transition)", "            executed, result = await self._activate(trigger_data, state.transitions[0])"),
+    ("statemachine/engines/async_.py", "        if trigger_data is self._activation:", "        if trigger_data.event == \"__initial__\":"),
+    ("statemachine/callbacks.py", "            return bool(value) == self.expected_value\n        return value\n\n    def call", "            return value == self.expected_value\n        return value\n\n    def call"),
+    ("statemachine/callbacks.py", "        if isawaitable(value):\n            value = await value", "        if self._iscoro:\n            value = await value"),
+    ("statemachine/callbacks.py", "            callback.call(*args, **kwargs)\n            for callback in self\n            if callback.condition(*args, **kwargs)", "            callback.call(*args, **kwargs)\n            for callback in self"),
+    ("statemachine/callbacks.py", "            if not condition.call(*args, **kwargs):\n                return False\n        return True", "            if condition.call(*args, **kwargs):\n                return True\n        return False"),
+    ("statemachine/callbacks.py", "            for task in tasks:\n                task.cancel()\n", ""),
+    ("statemachine/event.py", "        kwargs = {k: v for k, v in kwargs.items() if k not in _event_data_kwargs}\n", ""),
+    ("statemachine/event.py", "    \"source\",\n", ""),
+    ("statemachine/event.py", "        machine._put_nonblocking(trigger_data)\n        result = machine._processing_loop()", "        result = machine._processing_loop()\n        machine._put_nonblocking(trigger_data)"),
+    ("statemachine/statemachine.py", "        if event in self.__class__._events:\n            event_instance: BoundEvent = getattr(self, event)\n        else:\n            event_instance = BoundEvent(id=event, name=event, _sm=self)",
+     "        event_instance: BoundEvent = getattr(self, event, BoundEvent(id=event, name=event, _sm=self))"),
+    ("statemachine/engines/base.py", "        self._activation = trigger_data\n", ""),
+    ("statemachine/engines/base.py", "        if self.sm.current_state_value is not None:\n            return\n", ""),
+    ("statemachine/spec_parser.py", "        return left(*args, **kwargs) and right(*args, **kwargs)", "        return bool(left(*args, **kwargs) and right(*args, **kwargs))"),
+    ("statemachine/spec_parser.py", "            return bool(operator(left(*args, **kwargs), right(*args, **kwargs)))", "            return operator(left(*args, **kwargs), right(*args, **kwargs))"),
+    ("statemachine/spec_parser.py", "            left_expr = right_expr\n", ""),
+    ("statemachine/spec_parser.py", "    ast.Or: custom_or,", "    ast.Or: custom_and,"),
+    ("statemachine/spec_parser.py", "    if expr.isidentifier() and not iskeyword(expr):", "    if \" \" not in expr:"),
+    ("statemachine/event_data.py", "        kwargs[\"target\"] = self.target\n", ""),
+]
+
+
+def selftest(repo):
+    """every edit of SELFTEST_EDITS applied (alone) to a scratch copy of the files the translator reads: it has to
+    notice each of them. -> (applied, detected, [edits it did not notice])"""
+    import shutil
+    import tempfile
+    base = translate(repo)
+    files = sorted({rel for _n, rel, *_ in FUNCS})
+    applied, detected, blind = 0, 0, []
+    tmp = tempfile.mkdtemp(prefix="srcgen_selftest_")
+    try:
+        for rel in files:
+            os.makedirs(os.path.dirname(os.path.join(tmp, rel)), exist_ok=True)
+            shutil.copy(os.path.join(repo, rel), os.path.join(tmp, rel))
+        for rel, old, new in SELFTEST_EDITS:
+            src = open(os.path.join(repo, rel)).read()
+            if src.count(old) != 1:
+                continue            # the tree under test no longer has that text: nothing to edit
+            applied += 1
+            with open(os.path.join(tmp, rel), "w") as f:
+                f.write(src.replace(old, new))
+            got = translate(tmp)
+            if any(got[k][1] != base[k][1] or got[k][2] != base[k][2] for k in base):
+                detected += 1
+            else:
+                blind.append((rel, old.strip()[:60]))
+            shutil.copy(os.path.join(repo, rel), os.path.join(tmp, rel))
+    finally:
+        shutil.rmtree(tmp, ignore_errors=True)
+    return applied, detected, blind
+
+
 HEADER = """import SMV.Src.IR
 /-! GENERATED by `harness/srcgen.py --write-expected` from the tree the theorems of `SMV/Src/Tie.lean` were
 proved for. Do not edit by hand. -/
@@ -786,6 +859,12 @@ def main(argv):
         repo = argv[argv.index("--repo") + 1]
     res = translate(repo)
     bad = {k: v[2] for k, v in res.items() if v[2]}
+    if "--selftest" in argv:
+        a, d, blind = selftest(repo)
+        print(f"translator self-test: {d}/{a} edits noticed")
+        for b in blind:
+            print("  not noticed:", b)
+        return 0 if a == d else 1
     if "--write-expected" in argv:
         if bad:
             print("untranslatable:", bad, file=sys.stderr)
